@@ -13,7 +13,7 @@ func (g *TxGen) mkRegisterRuntime() *GenTx {
 		return nil
 	}
 	cur := *sc.Runtime
-	owner := sc.Entities[0].Account
+	owner := sc.RuntimeOwner.Account
 	rng := g.rng
 	signer := owner
 	intent := "valid"
